@@ -4,6 +4,7 @@ from concurrent.futures import ThreadPoolExecutor
 
 from . import common as C
 from . import servelayer as L
+from . import pulselayer as P
 
 PROPS = ("C14", "C15", "C16", "C17", "C18", "C19")
 PROFILES = {"C14": ["mixed", "history", "ttl"], "C15": ["mixed", "ttl", "history"], "C16": ["mixed", "restart", "history"],
@@ -33,7 +34,12 @@ def run_all(scs, jobs=12):
             ress = list(ex.map(L.run_impl, scs))
         out = []
         for sc, res in zip(scs, ress):
-            out.append({"sc": sc, "res": res, "fnd": L.analyse(sc, res, drv)})
+            if sc.get("pulse"):
+                # pulse markers are not stored: these scenarios have their own oracle (vlib/pulselayer.py)
+                fnd = [dict(f, kind="pulse", props=["C14"]) for f in P.analyse(sc, res, drv)]
+            else:
+                fnd = L.analyse(sc, res, drv)
+            out.append({"sc": sc, "res": res, "fnd": fnd})
         return out
     finally:
         drv.close()
@@ -74,6 +80,8 @@ def run(prop, tier, seed, replay=None):
         profs = PROFILES[prop]
         for k in range(n):
             scs.append(L.gen_scenario(seed * 7919 + k, profs[k % len(profs)]))
+        if prop == "C14":
+            scs += [P.scenario(seed * 17 + k) for k in range(4 if tier == "quick" else 30)]
     results = run_all(scs)
 
     violations, known_hit = [], []
@@ -103,7 +111,7 @@ def run(prop, tier, seed, replay=None):
         lines.append(f"KNOWN-FINDING: property={prop} {kf['what']}")
     if violations:
         r, it = violations[0]
-        sc = r["sc"] if replay else shrink(prop, r["sc"])
+        sc = r["sc"] if (replay or r["sc"].get("pulse")) else shrink(prop, r["sc"])
         rr = run_all([sc], jobs=1)[0]
         its = [x for x in rr["fnd"] if prop in x["props"]]
         if not its:
@@ -143,6 +151,8 @@ def run(prop, tier, seed, replay=None):
                 "its output compared with the frames stamped with its id; the serve loop's announcements are compared with "
                 "`announcements` (start-up compaction + live registrations); the subscribe/announce order is read from the sync points. "
                 "commands and generators: per call / per spawn the frames stamped with its id are compared with `cmdServe` / `genRun` + `lifecycle` / `duplexInput`. "
+                "C14 also: handlers registered with `pulse: P` next to one without - the subscription (stored frames + pulse markers) is rebuilt from "
+                "the instance's own stamps, checked for completeness, order and pulse rate, and `run` is compared over it. "
                 "evaluations = handler instances + command calls + generator lifecycles replayed; non-trivial = a scenario whose followers were handed more than 6 frames",
         "step_histogram": dict(hist),
         "findings_checked": sum(len(r["fnd"]) for r in results),
